@@ -48,6 +48,7 @@ REQUIRED_REACH = [
     "probe:history_failed_the_way_the_probe_fails",
     "probe:history_changed_working_directory",
     "probe:history_of_hundreds_of_assemblies",
+    "probe:bare_failing_program_assembled_again",
     "probe:history_other_rom_type",
     "probe:history_used_probe_path",
     "probe:history_assembled_probe_text_under_other_layout",
@@ -328,7 +329,9 @@ def gen_case(cseed: int, tier: str) -> dict[str, Any]:
             # another program stored under the probe's own path, assembled, then replaced by the probe
             src = "probe.s"
             same_path_ops.append(len(ops))
-        spec = spec_for(entry, src, f"h{i}_", prog.mapping, [list(d) for d in prog.defines], h)
+        # now and then the history writes its output where the probe will write its own (a build script that
+        # reuses one output name): what is left on disk must not show through in the probe's file
+        spec = spec_for(entry, src, f"h{i}_" if h.random() > 0.2 else "probe_", prog.mapping, [list(d) for d in prog.defines], h)
         if writer_fail is not None:
             spec["writer_fail_at"] = writer_fail
         if insert is not None:
@@ -507,8 +510,36 @@ def long_history_family(tier: str) -> list[dict[str, Any]]:
     return out
 
 
+def bare_repeat_family() -> list[dict[str, Any]]:
+    """Every error class as the *whole* program (its failing statement is the first thing the assembler
+    looks at), under each ROM type, assembled and then assembled again as the probe (and repeated): what
+    the first failure leaves half-updated is exactly what the second run meets first."""
+    out: list[dict[str, Any]] = []
+    i = 0
+    for rom, unmapped in (("low", 0x728000), ("high", 0x008000), ("low2", 0)):
+        dummy = progen.Prog()
+        dummy.mapping = rom
+        dummy.unmapped_addr = unmapped
+        for klass in sorted(ERROR_CLASSES):
+            if klass == "unmapped_bank" and not unmapped:
+                continue
+            text = error_node(klass, dummy)["t"] + "\n"
+            files = {"probe.s": text.encode("utf-8"), "again.s": text.encode("utf-8")}
+            roles = {"probe.s": "source", "again.s": "source"}
+            entry = ["string", "patch", "cli", "assemble"][i % 4]
+            i += 1
+            hspec = spec_for(entry, "again.s" if i % 2 else "probe.s", "h_", rom, [], random.Random(i))
+            pspec = spec_for(["string", "cli", "patch"][i % 3], "probe.s", "probe_", rom, [], random.Random(i + 1))
+            for sp in (hspec, pspec):
+                if sp.get("out"):
+                    roles[sp["out"]] = "out_ips" if sp["out"].endswith(".ips") else "out_sfc"
+            ops = [{"op": "exec", "spec": hspec, "knobs": {}, "faults": [], "kind": "bare_same_failure", "has_map": False, "pool": False, "mapping": rom, "insert_class": klass}]
+            out.append({"files": files, "roles": roles, "ops": ops, "probe_spec": pspec, "probe_meta": {"negatives": [], "shared": None, "fails_by": klass}, "seed": 9000 + i, "fresh": False, "family": "bare_repeat"})
+    return out
+
+
 def plan(tier: str) -> dict[str, Any]:
-    return {"fixed": interpreter_family() + long_history_family(tier), "seeded": 3000 if tier == "quick" else 0, "chunk": 20, "wall_cap_s": 240, "minimise_s": 30}
+    return {"fixed": interpreter_family() + long_history_family(tier) + bare_repeat_family(), "seeded": 3000 if tier == "quick" else 0, "chunk": 20, "wall_cap_s": 240, "minimise_s": 30}
 
 
 # ---------------------------------------------------------------------------
@@ -548,6 +579,9 @@ def final_files(case: dict[str, Any]) -> dict[str, bytes]:
 
 def run_case(case: dict[str, Any], stats: Stats) -> list[Violation]:
     files, roles, ops = case["files"], case["roles"], case["ops"]
+    if not _cwd_consistent(ops):
+        stats.bump("no_verdict(history leaves the working directory somewhere else)")
+        return []
     pspec = case["probe_spec"]
     probe_op = {"op": "exec", "spec": pspec, "knobs": {}, "faults": []}
     clean_ops = [{k: v for k, v in op.items() if k in ("op", "spec", "knobs", "faults", "path", "data", "mode")} for op in ops]
@@ -607,6 +641,8 @@ def run_case(case: dict[str, Any], stats: Stats) -> list[Violation]:
         out.append(Violation("probe_result_depends_on_history", "after_vs_alone:" + fields, f"probe after the history differs from the probe alone: {explain_diff(r_after, r_alone)}", case, {"history_kinds": kinds}))
     elif r_repeat != r_after:
         out.append(Violation("probe_not_repeatable", "repeat", f"probe repeated immediately differs from its first run: {explain_diff(r_repeat, r_after)}", case, {"history_kinds": kinds}))
+    if case.get("family") == "bare_repeat":
+        stats.bump("probe:bare_failing_program_assembled_again")
     if case.get("family") == "long_history":
         stats.bump("probe:history_of_hundreds_of_assemblies")
     if case.get("family") == "interpreter":
@@ -633,19 +669,36 @@ def sample_of(case: dict[str, Any]) -> Any:
     }
 
 
+def _cwd_consistent(ops: list[dict[str, Any]]) -> bool:
+    """Every assembly runs in the directory its spec was written for, and the history ends where the
+    probe expects to be (a candidate that drops one 'chdir' of a pair would differ on any tree)."""
+    cwd = ""
+    for op in ops:
+        if op["op"] == "chdir":
+            cwd = op.get("path") or ""
+        elif op["op"] == "exec" and (op["spec"].get("cwd") or "") != cwd:
+            return False
+    return cwd == ""
+
+
 def shrink_candidates(case: dict[str, Any]) -> Iterator[dict[str, Any]]:
     ops = case["ops"]
     # drop history ops (largest reduction first)
     if len(ops) > 1:
         half = len(ops) // 2
         for part in (ops[half:], ops[:half]):
-            c = dict(case)
-            c["ops"] = part
-            yield c
+            if _cwd_consistent(part):
+                c = dict(case)
+                c["ops"] = part
+                yield c
     for i in range(len(ops)):
-        c = dict(case)
-        c["ops"] = ops[:i] + ops[i + 1 :]
-        yield c
+        cand = ops[:i] + ops[i + 1 :]
+        if ops[i]["op"] == "exec" and ops[i]["spec"].get("cwd") and 0 < i < len(ops) - 1 and ops[i - 1]["op"] == "chdir" and ops[i + 1]["op"] == "chdir":
+            cand = ops[: i - 1] + ops[i + 2 :]  # a visit to another directory goes as a whole
+        if _cwd_consistent(cand):
+            c = dict(case)
+            c["ops"] = cand
+            yield c
     # drop faults / knobs from ops
     for i, op in enumerate(ops):
         if op["op"] == "exec" and (op.get("faults") or op.get("knobs")):
